@@ -119,6 +119,15 @@ PROPS["C19"] = {"engines": [{"engine": "open", "shim": True}],
                          "states = distinct configurations; transitions = cases."),
                 "explanation": "A mismatching open is rejected before any mutating call other than opening LOCK, leaves the directory byte-identical, and a later matching open sees the model's data; the pre-creation choice is remembered and unobservable."}
 
+PROPS["C09"] = {"engines": [{"engine": "power", "shim": True}],
+                "rule": ("the histories of the CRASH engine (Sync mode) are executed once with the shim recording every filesystem call and its result; a small filesystem model (names, "
+                         "inodes, per-inode content as of its last fsync/fdatasync) is replayed over the trace. At every cut the no-loss reconstruction must equal the live directory "
+                         "byte for byte (model bound to the implementation; counted in traces_validated_against_impl). For every cut and every non-empty subset of the inodes holding "
+                         "unsynced bytes, those inodes revert to their synced content and the image is recovered and checked with the C03 oracles. states = distinct loss images; "
+                         "transitions = images recovered."),
+                "explanation": "Power-loss durability in Sync mode: on every image in which any subset of files loses the bytes not covered by an explicit sync (directory operations persist in issue order) the next open succeeds, acknowledged operations survive with intact contents and the in-flight operation is all-or-nothing.",
+                "count_cases_as_traces": False}
+
 ENGINES = [
     {"name": "seq", "path": "harness/src/seq.rs", "serves_properties": ["C01", "C02", "C07", "C12", "C13"],
      "kind_free_text": "bounded-exhaustive operation-sequence enumeration on the real store vs BTreeMap model + independent on-disk decoders"},
@@ -134,10 +143,11 @@ ENGINES = [
      "kind_free_text": "CHESS-style controlled scheduler over the real parking_lot locks and real files (repo hooks + LD_PRELOAD shim), preemption-bounded exhaustive DFS, linearizability by brute force"},
     {"name": "open", "path": "harness/src/open.rs", "serves_properties": ["C11", "C19"],
      "kind_free_text": "racing opens under the controlled scheduler with every filesystem call as a point; cross-process pause/kill of the owner; exhaustive settings-gate configurations"},
+    {"name": "power", "path": "harness/src/power.rs", "serves_properties": ["C09"],
+     "kind_free_text": "sync-loss images reconstructed from the shim's syscall trace, validated against live snapshots at every cut, every subset of dirty files lost"},
     {"name": "crash", "path": "harness/src/crash.rs", "serves_properties": ["C03", "C06", "C08", "C12", "C20"],
      "kind_free_text": "every syscall boundary of every bounded history: live-directory crash images via LD_PRELOAD shim, recovered and checked, nested in recovery"},
 ]
 
 # properties not (yet) claimed; kept current as engines land
-NOT_APPLICABLE = {p: "engine not built yet in this round (planned, see DESIGN.md §3)" for p in
-                  ["C09"]}
+NOT_APPLICABLE = {}
